@@ -78,13 +78,13 @@ private theorem mi_value_none (cap rights clock : Nat) (isEp : Bool) (hc : cap <
 private theorem and7 (x : Nat) : x &&& 0x7 = x % 8 := Nat.and_two_pow_sub_one_eq_mod x 3
 private theorem andF (x : Nat) : x &&& 0xF = x % 16 := Nat.and_two_pow_sub_one_eq_mod x 4
 private theorem and3F (x : Nat) : x &&& 0x3F = x % 64 := Nat.and_two_pow_sub_one_eq_mod x 6
-private theorem andFF (x : Nat) : x &&& 0xFF = x % 256 := Nat.and_two_pow_sub_one_eq_mod x 8
+private theorem andFF (x : Nat) : x &&& 0xFFFF = x % 65536 := Nat.and_two_pow_sub_one_eq_mod x 16
 private theorem and1 (x : Nat) : x &&& 1 = x % 2 := Nat.and_two_pow_sub_one_eq_mod x 1
 
 /-- every MoveInfo unpacks to what was packed: captured kind 0..7, rights 0..15, ep square 0..63 or none (64),
     ep flag, 8-bit clock — for ALL field values in range (by arithmetic, not enumeration) -/
 theorem C16_moveinfo (cap rights ep clock : Nat) (isEp : Bool)
-    (hc : cap < 8) (hr : rights < 16) (he : ep < 65) (hk : clock < 256) :
+    (hc : cap < 8) (hr : rights < 16) (he : ep < 65) (hk : clock < 65536) :
     let mi := mkMoveInfo cap rights ep isEp clock
     miCaptured mi = cap ∧ miLastCastling mi = rights ∧ miLastEp mi = ep ∧ miIsEp mi = isEp ∧ miClock mi = clock := by
   intro mi
